@@ -41,7 +41,7 @@ for pid in props:
     w("| %s | %s | %s | %s | %s |" % (pid, r['category'], r['engine'].split(' (')[0], r['text'].replace('|','/')[:260], '; '.join(x for x in (fx,ks) if x) or 'none'))
 w("")
 w("### 7.3 Defects found\n")
-w("**Repaired** (one unguarded `fix:` commit each in `/repo`; the unedited 744-test baseline passes after every one, `tools/baseline.sh`). A repaired entry suppresses nothing: the check passes on the repaired tree and reports the violation again if it returns.\n")
+w("**Repaired** (one unguarded `fix:` commit each in `/repo`; the unedited 744-test baseline, `tools/baseline.sh`, passed on the tree after every one; twice several independent one-file repairs were baselined together and then committed one by one: a1e529e/04689a9/c79f71e/3448c32 and 1ffa713/179e35f). A repaired entry suppresses nothing: the check passes on the repaired tree and reports the violation again if it returns.\n")
 for f in d['fixed']:
     w("* "+f.replace('fixed: ','')[:420])
 w("")
